@@ -115,6 +115,7 @@ func (e *Engine) finish(prop, tier string, rs []*FnResult, verbose bool, loadS f
 			}
 		}
 	}
+	knownObs := map[*Obligation]bool{}
 	discharged, covers, coverOK := 0, 0, 0
 	solverTime := 0.0
 	bySolver := map[string]int{}
@@ -142,13 +143,14 @@ func (e *Engine) finish(prop, tier string, rs []*FnResult, verbose bool, loadS f
 		// known finding?
 		isKnown := false
 		for _, k := range known {
-			if k.Status == "known" && k.Property == prop && k.Obligation == full {
+			if k.Status == "known" && normOb(k.Obligation) == normOb(full) {
 				isKnown = true
 				line := fmt.Sprintf("KNOWN-FINDING: property=%s %s %s", prop, full, k.What)
 				knownSeen = append(knownSeen, line)
 			}
 		}
 		if isKnown {
+			knownObs[o] = true
 			continue
 		}
 		violations++
@@ -180,7 +182,7 @@ func (e *Engine) finish(prop, tier string, rs []*FnResult, verbose bool, loadS f
 	}
 	nProof := 0
 	for _, o := range all {
-		if o.Expect == "unsat" {
+		if o.Expect == "unsat" && !knownObs[o] {
 			nProof++
 		}
 	}
@@ -207,6 +209,7 @@ func (e *Engine) finish(prop, tier string, rs []*FnResult, verbose bool, loadS f
 			"cover_checks": covers, "cover_checks_passed": coverOK,
 			"vacuity": "requires of every function, every loop invariant (with path condition) and every return are checked satisfiable (cover obligations); a cover answered unsat fails the run",
 			"samples": samples, "not_covered": notCovered, "known_findings_seen": knownSeen,
+			"obligations_failing_as_known_findings": len(knownObs),
 			"integer_model": "fixed-width Go integers are SMT bit-vectors of their width; no mathematical-integer abstraction",
 			"bounded": []string{},
 		}}
@@ -230,6 +233,28 @@ func (e *Engine) finish(prop, tier string, rs []*FnResult, verbose bool, loadS f
 		return 2
 	}
 	return 0
+}
+
+// normOb strips the per-return and per-conjunct suffixes (@k, #k) from an obligation name, so
+// that a known finding is identified by function and clause, not by how many return statements
+// precede the failing one.
+func normOb(s string) string {
+	for {
+		i := strings.LastIndexAny(s, "@#")
+		if i < 0 || i == len(s)-1 {
+			return s
+		}
+		digits := true
+		for _, c := range s[i+1:] {
+			if c < '0' || c > '9' {
+				digits = false
+			}
+		}
+		if !digits || i < strings.LastIndex(s, "/") {
+			return s
+		}
+		s = s[:i]
+	}
 }
 
 func seedFromEnv() int {
